@@ -127,7 +127,7 @@ class C07(flow.Spec):
         # unstable variants on the sequential fall-back: which of several equivalent elements the
         # sequential merge takes (hence `begins` and the tags in `out`) is not determined; compare keys,
         # return value and windows (the harness oracle checks the prefix property of `begins`)
-        if " win m" not in impl and not impl.endswith(" win -"):
+        if " win m" not in impl and " win - " not in impl:
             return False
 
         def strip(a):
@@ -136,7 +136,7 @@ class C07(flow.Spec):
                 return None
             kf = key_of(d["cmp"])
             keys = [kf(int(e.split(":")[0])) for e in t[1].split(",")] if t[1] != "-" else []
-            return (keys, t[3], t[7])
+            return (keys, t[3], t[7], t[9] if len(t) > 9 else None)
         return strip(impl) is not None and strip(impl) == strip(model)
 
     tsan_stats = None
